@@ -95,6 +95,9 @@ async def run_scenario(sc):
                 f["reqid"] -= 1
             elif pert == "id_arb":
                 f["reqid"] = 7
+            elif pert in ("id_maxint", "id_zero", "id_minus1", "id_minint"):
+                v = {"id_maxint": 2 ** 31 - 1, "id_zero": 0, "id_minus1": -1, "id_minint": -2 ** 31}[pert]
+                f["reqid"] = v if v != f["reqid"] else v - 3
             elif pert == "id_p32":
                 f["reqid"] += 2 ** 32
             elif pert == "id_m32":
@@ -103,6 +106,9 @@ async def run_scenario(sc):
                 f["reqid"] = -f["reqid"] if f["reqid"] else 1
             elif pert == "id_p64":
                 f["reqid"] += 2 ** 64
+            if pert in ("wrong_comm", "wrong_ver") and sc.get("es"):
+                f["es"], f["ei"] = sc["es"], sc.get("ei", 0)
+                f["vbs"] = [(o, NULL) for o, _, _ in req["vbs"]]
             if pert.startswith("id_") and sc.get("es"):
                 # C07: an error response carrying another request-id is not the answer to this request
                 f["es"], f["ei"] = sc["es"], sc.get("ei", 0)
@@ -124,25 +130,29 @@ async def run_scenario(sc):
         # perturb runs before on_reply in the agent
         call = dict(e="call", op=op, oids=sc["oids"], nr=sc.get("nr", 0), mr=sc.get("mr", 0), vals=sc.get("setvals", []))
         events.append(call)
+        import contextlib
+        # the same operation issued inside a temporary-reconfiguration block: results and exceptions pass through it unchanged
+        block = c.reconfigure(timeout=3) if sc.get("inblock") else contextlib.nullcontext()
         try:
-            if op == "get":
-                r = await c.get(oids[0])
-            elif op == "multiget":
-                r = await c.multiget(oids)
-            elif op == "getnext":
-                r = await c.getnext(oids[0])
-            elif op == "multigetnext":
-                r = await c.multigetnext(oids)
-            elif op == "set":
-                r = await c.set(oids[0], mk_x690(sc["setvals"][0]))
-            elif op == "multiset":
-                r = await c.multiset({o: mk_x690(v) for o, v in zip(oids, sc["setvals"])})
-            elif op == "bulkget":
-                nr = sc.get("nr", 0)
-                r = await c.bulkget(oids[:nr], oids[nr:], sc.get("mr", 1))
-            else:
-                raise ValueError(op)
-            events.append(dict(e="ret", kind="result", cls="", snmp=False, status=0, oid=[], data=abs_result(op, r)))
+          with block:
+              if op == "get":
+                  r = await c.get(oids[0])
+              elif op == "multiget":
+                  r = await c.multiget(oids)
+              elif op == "getnext":
+                  r = await c.getnext(oids[0])
+              elif op == "multigetnext":
+                  r = await c.multigetnext(oids)
+              elif op == "set":
+                  r = await c.set(oids[0], mk_x690(sc["setvals"][0]))
+              elif op == "multiset":
+                  r = await c.multiset({o: mk_x690(v) for o, v in zip(oids, sc["setvals"])})
+              elif op == "bulkget":
+                  nr = sc.get("nr", 0)
+                  r = await c.bulkget(oids[:nr], oids[nr:], sc.get("mr", 1))
+              else:
+                  raise ValueError(op)
+          events.append(dict(e="ret", kind="result", cls="", snmp=False, status=0, oid=[], data=abs_result(op, r)))
         except Exception as ex:  # noqa
             st = getattr(ex, "error_status", 0)
             oo = getattr(ex, "offending_oid", None)
@@ -235,9 +245,10 @@ def run_all(scenarios):
     async def main():
         out = []
         for sc in scenarios:
-            if sc.get("oidsB"):
-                out.extend(await run_overlap(sc))
-            else:
-                out.append(await run_scenario(sc))
+            with use_prefix(sc.get("pfx")), debug_logging(bool(sc.get("debuglog"))):
+                if sc.get("oidsB"):
+                    out.extend(await run_overlap(sc))
+                else:
+                    out.append(await run_scenario(sc))
         return out
     return asyncio.run(main())
